@@ -48,5 +48,5 @@ def run(name, extra=lambda P,p:[]):
         s.add(z3.simplify(sp0.t) != 0)
         r2=s.check()
         print(name,'deriv:',r1,'zero:',r2, (s.model() if str(r2)=='sat' else ''), round(time.time()-t0,2))
-run('Henry'); run('Langmuir'); run('DSLangmuir'); run('TSLangmuir'); run('Quadratic')
-run('BET', lambda P,p:[P['N']*p<1]); run('GAB', lambda P,p:[P['K']*p<1]); run('TemkinApprox'); run('Freundlich')
+if __name__=="__main__": run('Henry'); run('Langmuir'); run('DSLangmuir'); run('TSLangmuir'); run('Quadratic')
+if __name__=="__main__": run('BET', lambda P,p:[P['N']*p<1]); run('GAB', lambda P,p:[P['K']*p<1]); run('TemkinApprox'); run('Freundlich')
